@@ -959,7 +959,14 @@ fn normalize_input_limb_bound_with_offset(
 impl<BE: Backend> GLWEAdd for Module<BE> where Self: ModuleN + VecZnxAddInto + VecZnxCopy + VecZnxAddAssign + VecZnxZero {}
 
 impl<BE: Backend> GLWESub for Module<BE> where
-    Self: ModuleN + VecZnxSub + VecZnxCopy + VecZnxNegate + VecZnxZero + VecZnxSubAssign + VecZnxSubNegateAssign
+    Self: ModuleN
+        + VecZnxSub
+        + VecZnxCopy
+        + VecZnxNegate
+        + VecZnxNegateAssign
+        + VecZnxZero
+        + VecZnxSubAssign
+        + VecZnxSubNegateAssign
 {
 }
 
@@ -1152,8 +1159,14 @@ where
         assert!(res.rank() >= a.rank());
 
         let base2k: usize = res.base2k().into();
-        for i in 0..res.rank().as_usize() + 1 {
+        for i in 0..a.rank().as_usize() + 1 {
             self.vec_znx_lsh(base2k, k, res.data_mut(), i, a.data(), i, scratch);
+        }
+        // Columns that `a` does not have (operand of smaller rank) are zero.
+        for i in a.rank().as_usize() + 1..res.rank().as_usize() + 1 {
+            for j in 0..res.size() {
+                poulpy_hal::layouts::ZnxZero::zero_at(res.data_mut(), i, j);
+            }
         }
     }
 
@@ -1178,7 +1191,7 @@ where
         assert!(res.rank() >= a.rank());
 
         let base2k: usize = res.base2k().into();
-        for i in 0..res.rank().as_usize() + 1 {
+        for i in 0..a.rank().as_usize() + 1 {
             self.vec_znx_lsh_add_into(base2k, k, res.data_mut(), i, a.data(), i, scratch);
         }
     }
@@ -1204,7 +1217,7 @@ where
         assert!(res.rank() >= a.rank());
 
         let base2k: usize = res.base2k().into();
-        for i in 0..res.rank().as_usize() + 1 {
+        for i in 0..a.rank().as_usize() + 1 {
             self.vec_znx_lsh_sub(base2k, k, res.data_mut(), i, a.data(), i, scratch);
         }
     }
